@@ -127,16 +127,20 @@ def _ops(maxtiers, nslots):
     return ops
 
 
-def _apply(tg, op):
+def _apply(tg, op, pool=None):
+    """pool: list collecting (tier object, its canonical form) for every tier object handed to the textgrid"""
     k = op[0]
-    if k == "add":
-        return tg.addTier(slot_tier(op[2], op[1]), op[3], op[4])
+    if k in ("add", "rep"):
+        t = slot_tier(op[2], op[1]) if k == "add" else slot_tier(op[3], op[2])
+        if pool is not None:
+            pool.append((t, canon(t)))
+        if k == "add":
+            return tg.addTier(t, op[3], op[4])
+        return tg.replaceTier(op[1], t, op[4])
     if k == "rm":
         return tg.removeTier(op[1])
     if k == "ren":
         return tg.renameTier(op[1], op[2])
-    if k == "rep":
-        return tg.replaceTier(op[1], slot_tier(op[3], op[2]), op[4])
     raise ValueError(op)
 
 
@@ -210,9 +214,16 @@ def _check_live(case):
     m1 = m0 if isinstance(r1, str) else r1
     for op2 in _ops(4, nslots)(m1):
         tg = build(m0)
-        call(_apply, tg, op1)
+        pool = [(t, canon(t)) for t in tg.tiers]  # tier objects the caller handed over (and still holds)
+        call(_apply, tg, op1, pool)
         succ, k, outcome, nontriv, v = _step(m1, op2, tg=tg)
         n += 1 + k
+        if not v:
+            for obj, c0 in pool:
+                if canon(obj) != c0:
+                    v = [Viol("argument-tier-changed-by-later-call", f"then {op2}: a tier object handed to the textgrid earlier was changed in place "
+                                                                     f"from {c0} to {canon(obj)} (mutators work on the textgrid, not on the caller's tiers)")]
+                    break
         if v:
             for x in v:
                 x["msg"] = f"after {op1} on a live textgrid: " + x["msg"]
